@@ -7,6 +7,7 @@ pub mod framing;
 pub mod head;
 pub mod headers;
 pub mod logfiles;
+pub mod logger;
 pub mod logjson;
 pub mod response;
 pub mod server;
@@ -33,6 +34,7 @@ pub fn run(args: &Args, out: Out) {
         "date-sweep" => calendar::run_sweep(args, out),
         "json-scalars" => logjson::run_scalars(args, out),
         "json-lines" => logjson::run_lines(args, out),
+        "logger-threads" => logger::run_threads(args, out),
         "logwriter-run" => logfiles::run_writer(args, out),
         "fileset-ops" => logfiles::run_fileset(args, out),
         "cookie-set" => cookies::run_set(args, out),
